@@ -159,11 +159,13 @@ def fcc_grid():
     return _dedupe([A_UNDEF, A_NULL, A_num(NAN), A_num(INF), A_num(-INF), A_num(-1), A_num(-0.0), A_num(0), A_num(65),
                     A_num(65.9), A_num(0xD83D), A_num(0xDE00), A_num(0xFFFF), A_num(0x10000), A_num(0x10000 + 65),
                     A_num(2 ** 31), A_num(2 ** 32 + 65), A_num(-65536 + 66), A_num(1e21), A_str("66", "numstr"),
+                    # negative non-integers: ToUint16 truncates towards zero before the modulo
+                    A_num(-0.5), A_num(-65470.5), A_num(-1.5), A_num(-65535.9), A_str("-0.5", "numstr"), A_num(65536.5), A_num(-4294967295.5),
                     A_str("x"), A_TRUE, O_EMPTY_ARR, O_EMPTY_OBJ, O_ARR1, O_VALUEOF])
 
 
 def fcc_small():
-    return _dedupe([A_num(65), A_num(0xD83D), A_num(0xDE00), A_num(NAN), A_str("66", "numstr"), A_num(-1)])
+    return _dedupe([A_num(65), A_num(0xD83D), A_num(0xDE00), A_num(NAN), A_str("66", "numstr"), A_num(-1), A_num(-65470.5)])
 
 
 # ------------------------------------------------------------------ receivers
